@@ -30,6 +30,7 @@ import (
 	"time"
 
 	"github.com/openconfig/goyang/pkg/yang"
+	"github.com/openconfig/goyang/pkg/yangentry"
 	"verif/harness/gen"
 	"verif/harness/lib"
 	"verif/harness/rescorr"
@@ -46,6 +47,9 @@ type job struct {
 	Repeat int          `json:"repeat"`
 	Perms  [][]int      `json:"perms"`
 	Cli    bool         `json:"cli,omitempty"` // also report what the command's tree formatter would read
+	// Surface: also run the set through the public entry point pkg/yangentry.Parse (files on disk),
+	// repeatedly and in permuted orders; all runs must agree with each other and with the library API.
+	Surface bool `json:"surface,omitempty"`
 }
 
 type runOut struct {
@@ -67,6 +71,11 @@ type jobOut struct {
 	First runOut    `json:"first"`
 	Runs  int       `json:"runs"`
 	Diffs []variant `json:"diffs,omitempty"`
+	// SurfaceRuns / SurfaceDiff: the yangentry.Parse runs and the first difference found ("" = none).
+	SurfaceRuns int      `json:"surface_runs,omitempty"`
+	SurfaceDiff string   `json:"surface_diff,omitempty"`
+	SurfaceA    []string `json:"surface_a,omitempty"`
+	SurfaceB    []string `json:"surface_b,omitempty"`
 }
 
 func (o runOut) key() string {
@@ -220,7 +229,112 @@ func runJob(j job) jobOut {
 	for _, p := range j.Perms {
 		try("load order permuted", p)
 	}
+	if j.Surface {
+		surface(j, &res)
+	}
 	return res
+}
+
+// surfaceDump renders what yangentry.Parse returned: the canonical error set, or the tree filed
+// under every module name (sorted).
+func surfaceDump(es map[string]*yang.Entry, errs []error, dir string) []string {
+	var out []string
+	if len(errs) > 0 {
+		for _, l := range lib.CanonErrs(errs) {
+			out = append(out, strings.ReplaceAll(l, dir+"/", ""))
+		}
+		return out
+	}
+	var names []string
+	for n := range es {
+		names = append(names, n)
+	}
+	sort.Strings(names)
+	for _, n := range names {
+		lib.DumpTree(n, es[n], &out)
+	}
+	return out
+}
+
+// surface writes the set to a directory and calls yangentry.Parse on the file paths Repeat times in
+// the given order and once per permutation. Expected (the reading of "a module's name denotes the
+// most recent revision loaded", which is what Modules.Modules files under the bare name): the trees
+// of ms.Modules[name] for every bare name, from the library API on the same files.
+func surface(j job, res *jobOut) {
+	c := j.Case
+	for _, n := range c.Names {
+		if n == "" || strings.ContainsAny(n, "/\\") || !strings.HasSuffix(n, ".yang") {
+			return
+		}
+	}
+	dir, err := os.MkdirTemp(*workDir, "surface")
+	if err != nil {
+		return
+	}
+	defer os.RemoveAll(dir)
+	seen := map[string]bool{}
+	for i, n := range c.Names {
+		if seen[n] {
+			return
+		}
+		seen[n] = true
+		os.WriteFile(filepath.Join(dir, n), []byte(c.Texts[i]), 0o644)
+	}
+	paths := func(order []int) []string {
+		var ps []string
+		for _, i := range order {
+			ps = append(ps, filepath.Join(dir, c.Names[i]))
+		}
+		return ps
+	}
+	base := identity(len(c.Names))
+	// the library API on the same files
+	var want []string
+	{
+		ms := yang.NewModules()
+		var rerrs []error
+		for _, p := range paths(base) {
+			if err := ms.Read(p); err != nil {
+				rerrs = append(rerrs, err)
+			}
+		}
+		if len(rerrs) == 0 {
+			rerrs = ms.Process()
+		}
+		es := map[string]*yang.Entry{}
+		if len(rerrs) == 0 {
+			for n, m := range ms.Modules {
+				if n == m.Name {
+					es[n] = yang.ToEntry(m)
+				}
+			}
+		}
+		want = surfaceDump(es, rerrs, dir)
+	}
+	try := func(desc string, order []int) {
+		if res.SurfaceDiff != "" {
+			return
+		}
+		es, errs := yangentry.Parse(paths(order), nil)
+		res.SurfaceRuns++
+		got := surfaceDump(es, errs, dir)
+		// a failed read stops at different files in different orders: only the fact is compared
+		if len(errs) > 0 && len(want) > 0 && strings.HasPrefix(want[0], "E ") && len(c.Names) > 1 && desc != "same order" {
+			if strings.HasPrefix(got[0], "E ") {
+				return
+			}
+		}
+		if strings.Join(got, "\n") != strings.Join(want, "\n") {
+			res.SurfaceDiff = desc
+			res.SurfaceA, res.SurfaceB = want, got
+		}
+	}
+	for r := 0; r < j.Repeat; r++ {
+		try("same order", base)
+	}
+	for _, p := range j.Perms {
+		try("load order permuted", p)
+	}
 }
 
 func serveChild() {
@@ -702,11 +816,27 @@ func main() {
 	for i := 0; i < n; i += step {
 		jobs[i].Cli = true
 	}
+	// the public entry point pkg/yangentry.Parse on every set with several revisions of one name and
+	// on every 4th other set
+	var surfaceJobs int64
+	for i := range jobs {
+		multi := false
+		for _, ft := range feats[i] {
+			if ft == "several-revisions" {
+				multi = true
+			}
+		}
+		if multi || i%4 == 1 {
+			jobs[i].Surface = true
+			surfaceJobs++
+		}
+	}
+	res.Distribution["yangentry_surface_sets"] = surfaceJobs
 	outs, crashes := runJobs(jobs, f)
 
 	distinct := lib.NewDistinct()
 	featCount := map[string]int64{}
-	var rejected, withErrors, clean, outside, totalRuns, withIdent int64
+	var rejected, withErrors, clean, outside, totalRuns, withIdent, surfaceRuns int64
 	var modelReqs, sortReqs, specReqs []string
 	var modelIdx, sortIdx []int
 	for i, o := range outs {
@@ -724,6 +854,13 @@ func main() {
 				Replay: replay{Mode: "lib", Case: c, OutputA: o.First, OutputB: d.Out}})
 			break
 		}
+		if o.SurfaceDiff != "" {
+			res.AddDisagreement(lib.Disagreement{Kind: "spec", Input: c,
+				Go:          map[string]any{"library_api": o.SurfaceA, "yangentry_parse": o.SurfaceB, "run": o.SurfaceDiff},
+				SpecVerdict: "violates", What: "pkg/yangentry.Parse (" + o.SurfaceDiff + ") differs from the library API on the same files: " + diffRuns(o.SurfaceA, o.SurfaceB),
+				Replay: replay{Mode: "lib", Case: c}})
+		}
+		surfaceRuns += int64(o.SurfaceRuns)
 		if o.First.ParseErr != "" {
 			rejected++
 			continue
@@ -872,9 +1009,10 @@ func main() {
 	}
 	res.Distribution["cli_tree_outputs_equal_to_model_rendering"] = treesCompared
 
-	res.Evaluations = totalRuns + cliRuns + lists
+	res.Evaluations = totalRuns + cliRuns + lists + surfaceRuns
+	res.Distribution["yangentry_surface_runs"] = surfaceRuns
 	res.DistinctNontrivial = distinct.Len()
-	res.Rule = "distinct_nontrivial = distinct source sets (by text) that load in the generated order; each is processed R times in fresh Modules values plus under all (up to 4 files) or sampled permutations of the load order, all runs compared on trees with full types, identity value lists and raw error messages; evaluations = library runs + goyang command runs + distinct message lists given to errorSort directly. Generator: base module b plus 1-5 conflict features (see distribution.features) in shuffled load order with random name prefixes (3 of 4 sets), harness/gen default sets (1 of 4)"
+	res.Rule = "distinct_nontrivial = distinct source sets (by text) that load in the generated order; each is processed R times in fresh Modules values plus under all (up to 4 files) or sampled permutations of the load order, all runs compared on trees with full types, identity value lists and raw error messages; evaluations = library runs + goyang command runs + distinct message lists given to errorSort directly + pkg/yangentry.Parse runs (sets with several revisions of one name and every 4th other set, written to disk, R repetitions + permutations, compared with the library API on the same files). Generator: base module b plus 1-5 conflict features (see distribution.features) in shuffled load order with random name prefixes (3 of 4 sets), harness/gen default sets (1 of 4)"
 	res.Distribution["library_runs"] = totalRuns
 	res.Distribution["runs_per_set"] = fmt.Sprintf("R=%d repetitions + min(n!-1, %d) permutations", R, sample)
 	res.Distribution["sets_rejected_at_load"] = rejected
